@@ -93,6 +93,138 @@ binop_codegen_harness!(c04_codegen_var_pow_lit, BinOpKind::Pow, Instruction::Pow
 binop_codegen_harness!(c04_codegen_var_concat_lit, BinOpKind::Concat, Instruction::StringConcat, true); // tier=thorough
 // @verif-end
 
+
+// ---------------------------------------------------------------------------
+// C14: the line an instruction is attributed to is the line of the construct it was generated for.
+// ---------------------------------------------------------------------------
+use crate::compiler::ast::{Call, EmitExpr, GetAttr, Stmt};
+
+fn span_on_line(line: u16) -> Span {
+    Span { start_line: line, start_col: 3, start_offset: 10, end_line: line, end_col: 9, end_offset: 16 }
+}
+
+macro_rules! emit_line_harness {
+    ($name:ident, $mk:expr) => {
+        #[kani::proof]
+        #[kani::unwind(6)]
+        #[kani::stub(alloc::fmt::format, crate::verif_common::format_stub)]
+        #[kani::stub(crate::compiler::codegen::take_pending_block_buffer, take_pending_stub)]
+        #[kani::stub(crate::compiler::codegen::take_span_stack_buffer, take_span_stub)]
+        #[kani::stub(crate::compiler::codegen::recycle_pending_block_buffer, recycle_pending_stub)]
+        #[kani::stub(crate::compiler::codegen::recycle_span_stack_buffer, recycle_span_stub)]
+        fn $name() {
+            // `{{ <expr> }}` on ANY line L, generated right after code for a statement on ANY other line L0:
+            // every instruction emitted for it is attributed to L (an error raised by it is reported there)
+            let line: u16 = kani::any();
+            let prev: u16 = kani::any();
+            kani::assume(line >= 1 && prev >= 1);
+            let mk: fn(Span) -> Expr<'static> = $mk;
+            let stmt = Stmt::EmitExpr(Spanned::new(EmitExpr { expr: mk(span_on_line(line)) }, span_on_line(line)));
+            let mut g = fresh_generator();
+            g.set_line(prev);
+            g.compile_stmt(&stmt);
+            assert!(g.instructions.get(0).is_some());
+            let mut i: u32 = 0;
+            while i < 4 {
+                if g.instructions.get(i).is_some() {
+                    assert!(g.instructions.get_line(i) == Some(line as usize));
+                }
+                i += 1;
+            }
+            assert!(g.instructions.get(4).is_none());
+            kani::cover!(prev > line);
+            kani::cover!(prev < line);
+            core::mem::forget((g, stmt));
+        }
+    };
+}
+
+// @verif-block props=C14 tier=quick cap=900 group=core doc=code_generation_of_`{{_expr_}}`_on_ANY_line_L_after_a_statement_on_ANY_other_line:_every_instruction_emitted_for_it_carries_line_L_in_the_line_table_(variable,_function_call,_`self.block()`_call,_`super()`)
+emit_line_harness!(c14_codegen_line_emit_var, |sp| Expr::Var(Spanned::new(Var { id: "x" }, sp)));
+emit_line_harness!(c14_codegen_line_emit_call, |sp| Expr::Call(Spanned::new(
+    Call { expr: Expr::Var(Spanned::new(Var { id: "f" }, sp)), args: Vec::new() },
+    sp
+)));
+emit_line_harness!(c14_codegen_line_emit_block_call, |sp| Expr::Call(Spanned::new(
+    Call {
+        expr: Expr::GetAttr(Spanned::new(GetAttr { expr: Expr::Var(Spanned::new(Var { id: "self" }, sp)), name: "blk" }, sp)),
+        args: Vec::new()
+    },
+    sp
+)));
+emit_line_harness!(c14_codegen_line_emit_super, |sp| Expr::Call(Spanned::new(
+    Call { expr: Expr::Var(Spanned::new(Var { id: "super" }, sp)), args: Vec::new() },
+    sp
+)));
+// @verif-end
+
+
+use crate::compiler::ast::{Do, ForLoop, IfCond, Include, Set, WithBlock};
+
+fn var_on(id: &'static str, sp: Span) -> Expr<'static> {
+    Expr::Var(Spanned::new(Var { id }, sp))
+}
+
+macro_rules! stmt_line_harness {
+    ($name:ident, $max:expr, $mk:expr) => {
+        #[kani::proof]
+        #[kani::unwind(16)]
+        #[kani::stub(alloc::fmt::format, crate::verif_common::format_stub)]
+        #[kani::stub(crate::compiler::codegen::take_pending_block_buffer, take_pending_stub)]
+        #[kani::stub(crate::compiler::codegen::take_span_stack_buffer, take_span_stub)]
+        #[kani::stub(crate::compiler::codegen::recycle_pending_block_buffer, recycle_pending_stub)]
+        #[kani::stub(crate::compiler::codegen::recycle_span_stack_buffer, recycle_span_stub)]
+        fn $name() {
+            // a statement (with empty bodies) on ANY line L, generated after code for ANY other line: every
+            // instruction emitted for it is attributed to L
+            let line: u16 = kani::any();
+            let prev: u16 = kani::any();
+            kani::assume(line >= 1 && prev >= 1);
+            let mk: fn(Span) -> Stmt<'static> = $mk;
+            let stmt = mk(span_on_line(line));
+            let mut g = fresh_generator();
+            g.set_line(prev);
+            g.compile_stmt(&stmt);
+            assert!(g.instructions.get(0).is_some());
+            let mut i: u32 = 0;
+            while i < $max {
+                if g.instructions.get(i).is_some() {
+                    assert!(g.instructions.get_line(i) == Some(line as usize));
+                }
+                i += 1;
+            }
+            assert!(g.instructions.get($max).is_none());
+            kani::cover!(prev > line);
+            kani::cover!(prev < line);
+            core::mem::forget((g, stmt));
+        }
+    };
+}
+
+// @verif-block props=C14 tier=quick cap=900 group=core doc=code_generation_of_the_listed_statement_(empty_bodies)_on_ANY_line_L_after_a_statement_on_ANY_other_line:_every_instruction_emitted_for_it_carries_line_L_in_the_line_table
+stmt_line_harness!(c14_codegen_line_set, 4, |sp| Stmt::Set(Spanned::new(Set { target: var_on("y", sp), expr: var_on("x", sp) }, sp)));
+stmt_line_harness!(c14_codegen_line_include, 4, |sp| Stmt::Include(Spanned::new(Include { name: var_on("x", sp), ignore_missing: false }, sp)));
+stmt_line_harness!(c14_codegen_line_do, 6, |sp| Stmt::Do(Spanned::new(
+    Do { call: Spanned::new(Call { expr: var_on("f", sp), args: Vec::new() }, sp) },
+    sp
+)));
+// @verif-end
+
+// @verif-block props=C14 tier=experimental cap=900 group=core doc=code_generation_of_the_listed_statement_(empty_bodies)_on_ANY_line_L_after_a_statement_on_ANY_other_line:_every_instruction_emitted_for_it_carries_line_L_in_the_line_table
+stmt_line_harness!(c14_codegen_line_if, 6, |sp| Stmt::IfCond(Spanned::new(
+    IfCond { expr: var_on("x", sp), true_body: Vec::new(), false_body: Vec::new() },
+    sp
+)));
+stmt_line_harness!(c14_codegen_line_for, 12, |sp| Stmt::ForLoop(Spanned::new(
+    ForLoop { target: var_on("a", sp), iter: var_on("x", sp), filter_expr: None, recursive: false, body: Vec::new(), else_body: Vec::new() },
+    sp
+)));
+stmt_line_harness!(c14_codegen_line_with, 8, |sp| Stmt::WithBlock(Spanned::new(
+    WithBlock { assignments: vec![(var_on("w", sp), var_on("x", sp))], body: Vec::new() },
+    sp
+)));
+// @verif-end
+
 #[cfg(test)]
 mod playback {
     use super::*;
